@@ -15,7 +15,9 @@ import (
 	"time"
 
 	"github.com/spf13/afero"
+	"golang.org/x/text/encoding/unicode"
 
+	"github.com/ARM-software/golang-utils/utils/charset"
 	"github.com/ARM-software/golang-utils/utils/filesystem"
 
 	"verifharness/internal/fsgate"
@@ -127,8 +129,20 @@ func (r *runner) run(backend string, nameComps []string, leadingSep bool, sep, k
 	_ = afero.WriteFile(base, filepath.Join(root, "outside", "keep", "precious.txt"), []byte("do not touch"), 0o644)
 	_ = afero.WriteFile(base, filepath.Join(root, "A"), []byte("sibling named like an entry"), 0o644)
 	name := rawName
+	converted := false
 	if name == "" {
 		comps := append([]string{}, nameComps...)
+		for i, c := range comps {
+			if c == "E.." {
+				// not ".." in the archive, ".." once the extraction has converted the name from ISO-2022-JP: the escape sequences vanish
+				comps[i] = ".\x1b(J."
+				converted = true
+			}
+		}
+		if converted {
+			// what makes the name invalid UTF-8 and the detection settle on ISO-2022-JP
+			comps[len(comps)-1] += "\x1b(J\x1b(J\xff"
+		}
 		if kind == "nested" {
 			comps = append(comps, stem+".zip")
 		}
@@ -159,6 +173,25 @@ func (r *runner) run(backend string, nameComps []string, leadingSep bool, sep, k
 	_, nm := split(strings.ReplaceAll(name, "\\", "/"))
 	if sep == "/" {
 		_, nm = split(strings.TrimPrefix(name, "/"))
+	}
+	if converted {
+		nm = append([]string{}, nameComps...) // the model's tokens: the trace specification knows what "E.." becomes
+		// does the conversion the extraction applies to this very path really turn the element into ".."? (it depends on which
+		// character set the detection settles on for the whole path; if it does not, the element is just an odd name)
+		full := filepath.Join(filepath.Clean(dest), name)
+		becomes := false
+		if enc, _, derr := charset.DetectTextEncoding([]byte(full)); derr == nil {
+			if out, cerr := charset.IconvString(full, enc, unicode.UTF8); cerr == nil {
+				becomes = !strings.Contains(out, "\x1b")
+			}
+		}
+		if !becomes {
+			for i := range nm {
+				if nm[i] == "E.." {
+					nm[i] = "oddname"
+				}
+			}
+		}
 	}
 	r.w.Write(map[string]any{"ev": "Begin", "id": r.id, "backend": backend, "destAbs": destAbs, "dest": nonNil(destComps), "cwd": nonNil(cwdComps), "name": nonNil(nm),
 		"leadingSep": strings.HasPrefix(name, "/"), "kind": kind, "stem": stem, "sep": sep, "raw": fmt.Sprintf("%q", name)})
